@@ -371,9 +371,10 @@ pub(crate) fn prepare_insertion_ctx(insertion_ctx: &mut InsertionContext) {
 pub(crate) fn finalize_insertion_ctx(insertion_ctx: &mut InsertionContext) {
     finalize_unassigned(insertion_ctx, UnassignmentInfo::Unknown);
 
+    // NOTE a route which was added to give duration-limited vehicles a chance may stay without jobs: it is removed
+    // before the state handlers run (per-solution values would count it) and after them (they may empty a tour)
+    insertion_ctx.solution.remove_empty_routes();
     insertion_ctx.problem.goal.accept_solution_state(&mut insertion_ctx.solution);
-
-    // NOTE a route which was added to give duration-limited vehicles a chance may stay without jobs
     insertion_ctx.solution.remove_empty_routes();
 }
 
